@@ -204,14 +204,23 @@ impl Property for C10 {
             if links_after != links_before {
                 return fail(srv, "c10|links-changed".into(), format!("links before {:?}\nlinks after  {:?}\n{}", links_before, links_after, head));
             }
-            if let (Some((c0, c1)), Some((t0, t1))) = (changed_region(&f, &after), target_span(&f, off.line as usize, &off.kind)) {
+            let in_quote = actions::line_in_quote(&f, off.line as usize);
+            if in_quote {
+                // the targeted span is modelled for the note's own sections and lists
+            } else if let (Some((c0, c1)), Some((t0, t1))) = (changed_region(&f, &after), target_span(&f, off.line as usize, &off.kind)) {
                 // one blank line of slack on each side (separators move with the block)
                 if c0 + 1 < t0 || c1 > t1 + 1 {
                     return fail(srv, "c10|rewrote-outside-target".into(), format!("changed lines {}..{} but the targeted part spans lines {}..{}\n{}", c0, c1, t0, t1, head));
                 }
             }
+            // inside a block quote only conservation is judged: "adjacent to another list" and the
+            // targeted span are modelled for the note's own sections and lists
+            if in_quote {
+                stats.class("in-quote:conservation-only");
+            }
             // round trips
-            if off.kind.ends_with("list.type") {
+            if in_quote {
+            } else if off.kind.ends_with("list.type") {
                 srv.did_change(&case.key, &after);
                 let again = actions::offered(&mut srv, &case.key, &after, &["refactor.rewrite.list.type"]).unwrap_or_default();
                 // the same list: an offer at the same line
@@ -232,7 +241,7 @@ impl Property for C10 {
                 }
                 srv.did_change(&case.key, &f);
             }
-            if off.kind.ends_with("section.list") {
+            if !in_quote && off.kind.ends_with("section.list") {
                 // adjacent to a list? (block right before the heading or right after the section)
                 let s = scan::scan(&f);
                 let lines = Lines::new(&f);
